@@ -805,14 +805,42 @@ func (tw *tokenWorld) exchangeUse(ch *kernel.Chooser) string {
 	form := url.Values{"grant_type": {string(oidc.GrantTypeTokenExchange)}, "subject_token": {stok}, "subject_token_type": {string(oidc.AccessTokenType)}, "requested_token_type": {string(oidc.AccessTokenType)}}
 	sid, _, _, sdec := w.DecodeAccess(stok)
 	slive := sdec && w.Store.TokenLive(sid) && (skind == "genuine" || stok == subj.access || strings.Count(subj.access, ".") != 2 || sameJWT(stok, subj.access))
+	// an ID token of the provider may serve as subject or actor too: it is live as long as it has not expired (the
+	// provider keeps no record of ID tokens; its own expiry check is all there is)
+	idLive := func(g *grantedToken) (live, undecided bool) {
+		pl := world.JWTPayload(g.idToken)
+		exp, ok := pl["exp"].(float64)
+		if !ok {
+			return false, false
+		}
+		d := time.Until(time.Unix(int64(exp), 0))
+		return d > 0, d > -3*time.Second && d < 3*time.Second
+	}
+	sUndecided := false
+	if subj.idToken != "" && ch.Bool(1, 3) {
+		stok, skind = subj.idToken, "id-token"
+		form.Set("subject_token", stok)
+		form.Set("subject_token_type", string(oidc.IDTokenType))
+		slive, sUndecided = idLive(subj)
+		if subj.issuer != "" && subj.issuer != w.Issuer {
+			slive = false
+		}
+	}
 	var actor *grantedToken
 	alive := true
+	aUndecided := false
 	if ch.Bool(1, 2) {
 		actor = tw.pick(ch, false)
-		form.Set("actor_token", actor.access)
-		form.Set("actor_token_type", string(oidc.AccessTokenType))
-		aid, _, _, adec := w.DecodeAccess(actor.access)
-		alive = adec && w.Store.TokenLive(aid)
+		if actor.idToken != "" && ch.Bool(1, 3) {
+			form.Set("actor_token", actor.idToken)
+			form.Set("actor_token_type", string(oidc.IDTokenType))
+			alive, aUndecided = idLive(actor)
+		} else {
+			form.Set("actor_token", actor.access)
+			form.Set("actor_token_type", string(oidc.AccessTokenType))
+			aid, _, _, adec := w.DecodeAccess(actor.access)
+			alive = adec && w.Store.TokenLive(aid)
+		}
 	}
 	r := w.PostForm("/oauth/token", form, rightPresentation(w, caller).creds)
 	desc := fmt.Sprintf("exchange by %s: subject %s token of %s (live=%v) actor=%v (live=%v) -> %d", caller, skind, subj.client, slive, actor != nil, alive, statusOf(r))
@@ -823,12 +851,15 @@ func (tw *tokenWorld) exchangeUse(ch *kernel.Chooser) string {
 		return desc
 	}
 	tw.o.Probe("exchange-success")
-	if !slive {
+	if skind == "id-token" {
+		tw.o.Probe("exchange-id-token-subject-success")
+	}
+	if !slive && !sUndecided {
 		tw.viol("C08", "dead-token-honoured", "exchange-subject", "%s: the exchange accepted a subject token that is not a live token of this provider", desc)
 	}
 	if actor != nil {
 		tw.o.Probe("exchange-with-actor-success")
-		if !alive {
+		if !alive && !aUndecided {
 			tw.viol("C08", "dead-token-honoured", "exchange-actor", "%s: the exchange accepted an actor token that is not live", desc)
 		}
 	}
